@@ -55,42 +55,46 @@ const SPEC_DELTA_PALETTE: [[i64; 3]; 72] = [
     [45, -45, 24], [24, 45, -45], [64, 64, -64], [128, 128, 0], [0, 0, -128], [-24, 45, -45],
 ];
 
-/// libjxl GetPaletteValue in mathematical (64-bit) integers; `bit_depth` is the value InvPalette passes.
+/// libjxl GetPaletteValue in mathematical integers; `bit_depth` is the value InvPalette passes.
+/// Index arithmetic (index - nb_colours - 64, Idiv 5, Umod) is done on i32 with CHECKED operations: every intermediate is
+/// representable (a failed check would be a harness defect), so the result is the mathematical one; sample values are
+/// computed in i64. (Measured: comparing the code's 32-bit dividers with 64-bit dividers of the spec does not close.)
+/// The 5x5x5 cube divides by 5 once per channel (`for (i = 0; i < c; i++) index = index Idiv 5`), which equals libjxl's
+/// `/ 5` (c = 1) and `/ 25` (c = 2).
 fn spec_palette_value<const NC: usize, const NBC: usize>(index: i32, c: usize, bit_depth: u32, palette: &[[i32; NBC]; NC]) -> i64 {
-    let nbc = NBC as i64;
-    let index = index as i64;
+    let nbc = NBC as i32;
+    let scale = (1i64 << bit_depth) - 1;
     if index < 0 {
         if c >= 3 {
             return 0;
         }
-        let i = (-(index + 1)) % 143;
+        let i = index.checked_add(1).unwrap().checked_neg().unwrap() % 143;
         let mult = if i & 1 == 1 { 1 } else { -1 };
         let mut r = SPEC_DELTA_PALETTE[((i + 1) >> 1) as usize][c] * mult;
         if bit_depth > 8 {
-            r *= 1i64 << (bit_depth - 8);
+            r <<= bit_depth - 8; // r * 2^(bit_depth - 8), written as a shift (a 64-bit symbolic multiplier does not close)
         }
         r
-    } else if nbc <= index && index < nbc + 64 {
+    } else if index < nbc {
+        palette[c][index as usize] as i64
+    } else if index - nbc < 64 {
         if c >= 3 {
             return 0;
         }
         let i = (index - nbc) >> (2 * c);
         let offs = if bit_depth > 3 { bit_depth - 3 } else { 0 };
-        (i % 4) * ((1i64 << bit_depth) - 1) / 4 + (1i64 << offs)
-    } else if nbc + 64 <= index {
+        ((i % 4) as i64) * scale / 4 + (1i64 << offs)
+    } else {
         if c >= 3 {
             return 0;
         }
         let mut i = index - nbc - 64;
-        if c == 1 {
+        let mut k = 0;
+        while k < c {
             i /= 5;
+            k += 1;
         }
-        if c == 2 {
-            i /= 25;
-        }
-        (i % 5) * ((1i64 << bit_depth) - 1) / 4
-    } else {
-        palette[c][index as usize] as i64
+        ((i % 5) as i64) * scale / 4
     }
 }
 
@@ -180,16 +184,19 @@ fn run_inverse<const NC: usize, const NBC: usize, const PX: usize>(
 }
 
 /// value contract: d_pred = Zero (prediction 0), so every sample must equal GetPaletteValue exactly.
-fn palette_value_case<const NC: usize, const NBC: usize, const PX: usize>(bd_lo: u32, bd_hi: u32, branch: Branch, only_extra_channels: bool) {
+/// `branches[p]` restricts the kind of entry pixel p refers to.
+fn palette_value_case<const NC: usize, const NBC: usize, const PX: usize>(bd_lo: u32, bd_hi: u32, branches: [Branch; PX], only_extra_channels: bool) {
     let palette: [[i32; NBC]; NC] = kani::any();
     let chans: [[i32; PX]; NC] = kani::any();
     let bit_depth: u32 = kani::any();
     kani::assume(bit_depth >= bd_lo && bit_depth <= bd_hi);
     let nb_deltas: u32 = kani::any();
     kani::assume(nb_deltas <= 1281 + 65535);
-    let sel: usize = kani::any(); // the pixel whose branch is selected (the other pixels are unconstrained)
-    kani::assume(sel < PX);
-    kani::assume(in_branch(branch, chans[0][sel], NBC as i32));
+    let mut i = 0;
+    while i < PX {
+        kani::assume(in_branch(branches[i], chans[0][i], NBC as i32));
+        i += 1;
+    }
     let out = run_inverse::<NC, NBC, PX>(&palette, chans, PX, nb_deltas, Predictor::Zero, bit_depth);
     let p: usize = kani::any();
     let c: usize = kani::any();
@@ -209,44 +216,59 @@ fn palette_value_case<const NC: usize, const NBC: usize, const PX: usize>(bd_lo:
     } else {
         assert!(out[c][p] as i64 == want, "[C03] implicit 5x5x5 cube entry: ((index / 5^c) % 5) * ((1 << bitdepth) - 1) / 4 for c < 3, 0 for c >= 3");
     }
-    let b = |br: Branch| branch == Branch::All || branch == br;
-    kani::cover!(!b(Branch::Delta) || (index < 0 && index != -1 && (c < 3 || only_extra_channels) && bit_depth > 8));
-    kani::cover!(!b(Branch::Delta) || (index < 0 && ((-(index as i64 + 1)) % 143) & 1 == 1) );
-    kani::cover!(!b(Branch::Explicit) || NBC == 0 || (index >= 0 && (index as i64) < NBC as i64));
-    kani::cover!(!b(Branch::SmallCube) || (index as i64 - NBC as i64 == 63));
-    kani::cover!(!b(Branch::LargeCube) || (index as i64 - NBC as i64 - 64 == 124));
-    kani::cover!(!b(Branch::LargeCube) || index == i32::MAX);
-    kani::cover!(!b(Branch::Delta) || index == i32::MIN);
-    kani::cover!(!b(Branch::Delta) || bit_depth < 25 || want != 0);
+    let mut has = [false; 5]; // which kinds of entry this instantiation admits
+    let mut i = 0;
+    while i < PX {
+        match branches[i] {
+            Branch::All => has = [true; 5],
+            Branch::Explicit => has[1] = true,
+            Branch::Delta => has[2] = true,
+            Branch::SmallCube => has[3] = true,
+            Branch::LargeCube => has[4] = true,
+        }
+        i += 1;
+    }
+    let cc = c < 3 || only_extra_channels;
+    kani::cover!(!has[2] || (index < 0 && index != -1 && cc && bit_depth > 8 && (bit_depth < 25 || c >= 3 || want != 0)));
+    kani::cover!(!has[2] || (index < 0 && (index.wrapping_add(1).wrapping_neg() % 143) & 1 == 1));
+    kani::cover!(!has[2] || index == i32::MIN);
+    kani::cover!(!has[1] || NBC == 0 || (index >= 0 && (index as i64) < NBC as i64));
+    kani::cover!(!has[3] || (index as i64 - NBC as i64 == 63));
+    kani::cover!(!has[4] || (index as i64 - NBC as i64 - 64 == 124));
+    kani::cover!(!has[4] || index == i32::MAX);
 }
 
 macro_rules! palette_value_harness {
-    ($name:ident, $unwind:literal, $nc:literal, $nbc:literal, $px:literal, $lo:literal, $hi:literal, $branch:expr, $extra:literal) => {
+    ($name:ident, $unwind:literal, $nc:literal, $nbc:literal, $px:literal, $lo:literal, $hi:literal, $branches:expr, $extra:literal) => {
         #[kani::proof]
         #[kani::unwind($unwind)]
         fn $name() {
-            palette_value_case::<$nc, $nbc, $px>($lo, $hi, $branch, $extra);
+            palette_value_case::<$nc, $nbc, $px>($lo, $hi, $branches, $extra);
         }
     };
 }
 
-// three channels (c < 3: every reference agrees), bit depth 1..=24, two pixels (so that the fast path `inverse_simple`
-// -- both indices explicit -- and the slow path with a mix of entry kinds are both exercised)
-palette_value_harness!(pal_value_rgb_explicit, 6, 3, 2, 2, 1, 24, Branch::Explicit, false);
-palette_value_harness!(pal_value_rgb_delta, 6, 3, 2, 2, 1, 24, Branch::Delta, false);
-palette_value_harness!(pal_value_rgb_small_cube, 6, 3, 2, 2, 1, 24, Branch::SmallCube, false);
-palette_value_harness!(pal_value_rgb_large_cube, 6, 3, 2, 2, 1, 24, Branch::LargeCube, false);
-// empty palette (nb_colours = 0), single channel (num_c = 1)
-palette_value_harness!(pal_value_rgb_nbc0, 6, 3, 0, 1, 1, 24, Branch::All, false);
-palette_value_harness!(pal_value_gray, 6, 1, 3, 2, 1, 24, Branch::All, false);
+// three channels (c < 3: every reference agrees), bit depth 1..=24
+// two pixels, both explicit: the fast path `inverse_simple`
+palette_value_harness!(pal_value_rgb_explicit, 5, 3, 2, 2, 1, 24, [Branch::Explicit, Branch::Explicit], false);
+// two pixels, one explicit, one implicit: explicit entries on the slow path
+palette_value_harness!(pal_value_rgb_mixed, 5, 3, 2, 2, 1, 24, [Branch::Explicit, Branch::SmallCube], false);
+palette_value_harness!(pal_value_rgb_delta, 5, 3, 2, 1, 1, 24, [Branch::Delta], false);
+palette_value_harness!(pal_value_rgb_small_cube, 5, 3, 2, 1, 1, 24, [Branch::SmallCube], false);
+palette_value_harness!(pal_value_rgb_large_cube, 5, 3, 2, 1, 1, 24, [Branch::LargeCube], false);
+// empty palette (nb_colours = 0: zero-width palette grid), every non-negative index is implicit
+palette_value_harness!(pal_value_rgb_nbc0_small, 5, 3, 0, 1, 1, 24, [Branch::SmallCube], false);
+palette_value_harness!(pal_value_rgb_nbc0_large, 5, 3, 0, 1, 1, 24, [Branch::LargeCube], false);
+// single channel (num_c = 1)
+palette_value_harness!(pal_value_gray, 4, 1, 3, 1, 1, 24, [Branch::All], false);
 // channels c >= 3 (libjxl: 0 for every implicit entry)
-palette_value_harness!(pal_value_extra_explicit, 8, 5, 2, 1, 1, 24, Branch::Explicit, true);
-palette_value_harness!(pal_value_extra_delta, 8, 5, 2, 1, 1, 24, Branch::Delta, true);
-palette_value_harness!(pal_value_extra_small_cube, 8, 5, 2, 1, 1, 24, Branch::SmallCube, true);
-palette_value_harness!(pal_value_extra_large_cube, 8, 5, 2, 1, 1, 24, Branch::LargeCube, true);
+palette_value_harness!(pal_value_extra_explicit, 7, 5, 2, 1, 1, 24, [Branch::Explicit], true);
+palette_value_harness!(pal_value_extra_delta, 7, 5, 2, 1, 1, 24, [Branch::Delta], true);
+palette_value_harness!(pal_value_extra_small_cube, 7, 5, 2, 1, 1, 24, [Branch::SmallCube], true);
+palette_value_harness!(pal_value_extra_large_cube, 7, 5, 2, 1, 1, 24, [Branch::LargeCube], true);
 // high bit depths: delta entries use min(bitdepth, 24) in both references
-palette_value_harness!(pal_value_hibd_delta, 6, 3, 1, 1, 25, 32, Branch::Delta, false);
-palette_value_harness!(pal_value_hibd_explicit, 6, 3, 1, 1, 25, 32, Branch::Explicit, false);
+palette_value_harness!(pal_value_hibd_delta, 5, 3, 1, 1, 25, 32, [Branch::Delta], false);
+palette_value_harness!(pal_value_hibd_explicit, 5, 3, 1, 1, 25, 32, [Branch::Explicit], false);
 
 /// implicit cube entries at bit depth 25..=29: the formula at the UNCLAMPED bit depth, mathematical integers (see header)
 fn palette_cube_hibd_case(branch: Branch) {
@@ -264,13 +286,13 @@ fn palette_cube_hibd_case(branch: Branch) {
 }
 
 #[kani::proof]
-#[kani::unwind(6)]
+#[kani::unwind(5)]
 fn pal_value_hibd_small_cube() {
     palette_cube_hibd_case(Branch::SmallCube);
 }
 
 #[kani::proof]
-#[kani::unwind(6)]
+#[kani::unwind(5)]
 fn pal_value_hibd_large_cube() {
     palette_cube_hibd_case(Branch::LargeCube);
 }
@@ -296,7 +318,7 @@ fn palette_total_case<const NC: usize, const NBC: usize>(bd_lo: u32, bd_hi: u32)
 }
 
 #[kani::proof]
-#[kani::unwind(6)]
+#[kani::unwind(5)]
 fn pal_total_hibd() {
     // 30, 31: integer samples; 32: float samples (bits_per_sample = 32)
     palette_total_case::<3, 1>(25, 32);
@@ -367,8 +389,8 @@ macro_rules! palette_delta_harness {
         }
     };
 }
-palette_delta_harness!(pal_delta_pred_west, 2, Predictor::West);
-palette_delta_harness!(pal_delta_pred_north, 2, Predictor::North);
-palette_delta_harness!(pal_delta_pred_gradient, 2, Predictor::Gradient);
+palette_delta_harness!(pal_delta_pred_west, 1, Predictor::West);
+palette_delta_harness!(pal_delta_pred_north, 1, Predictor::North);
+palette_delta_harness!(pal_delta_pred_gradient, 1, Predictor::Gradient);
 palette_delta_harness!(pal_delta_pred_avg, 1, Predictor::AvgWestAndNorth);
 palette_delta_harness!(pal_delta_pred_select, 1, Predictor::Select);
